@@ -6,7 +6,7 @@ rows = []
 names = sorted(d for d in os.listdir(os.path.join(ROOT, "seeded")) if os.path.isdir(os.path.join(ROOT, "seeded", d)))
 only = sys.argv[1:]
 for name in names:
-    if only and not any(o in name for o in only):
+    if only and not any((name.startswith(o[1:]) if o.startswith("^") else o in name) for o in only):
         continue
     meta = json.load(open(os.path.join(ROOT, "seeded", name, "meta.json")))
     prop = meta.get("check_with", meta["breaks_property"])
@@ -27,7 +27,8 @@ for name in names:
             cls = l.strip()[:80]
     rows.append((name, prop, verdict, cls, time.time() - t0))
     print(name, prop, verdict, cls, flush=True)
-with open(os.path.join(ROOT, "seeded", "RESULTS.md"), "w") as f:
+out = os.environ.get("SEEDED_RESULTS", os.path.join(ROOT, "seeded", "RESULTS.md"))
+with open(out, "w") as f:
     f.write("# Seeded changes against the quick tier of their property's check\n\n")
     f.write("Produced by `./run_seeded.py` (each change applied to a scratch worktree of /repo HEAD, check run with VERIF_REPO pointing at it).\n\n")
     f.write("| seeded change | property | quick check | first violation class | seconds |\n|---|---|---|---|---|\n")
